@@ -14,8 +14,15 @@ _RUNCASE = None
 
 
 def _work(i):
+    from . import core
     name, hint, confkw, src = _CASES[i]
-    return i, _RUNCASE(_PROP, name, hint, confkw, _TIER, src)
+    before = core.second_snapshot()
+    out = _RUNCASE(_PROP, name, hint, confkw, _TIER, src)
+    try:
+        out.second = core.second_delta(before)
+    except Exception:
+        pass
+    return i, out
 
 
 # thorough tier: C02's obligations (MR, S_r, reachability per index) are the most solver-heavy of the family
@@ -139,7 +146,14 @@ def report(prop, tier, seed, outs, wall, level, explanation, extra_assumptions, 
     nontrivial = set()
     samples = []
     observations = []
+    second = {'asked': 0, 'unsat': 0, 'unknown': 0, 'sat': 0, 'error': 0, 'time_s': 0.0}
     for o in outs:
+        sd = getattr(o, 'second', None)
+        if sd:
+            for k in second:
+                second[k] += sd.get(k, 0)
+            for h in sd.get('disagreements', []):
+                inconclusive.append((o.name, o.confkw, f'HARNESS-ERROR solver disagreement: z3 unsat, cvc5 sat (build/disagree-{h}.smt2)'))
         if o.skipped:
             skipped.append((o.name, o.skipped))
             continue
@@ -189,6 +203,9 @@ def report(prop, tier, seed, outs, wall, level, explanation, extra_assumptions, 
         'solver_queries': queries,
         'solver_time_s': round(solver_s, 2),
         'unbounded_mode': unb,
+        'second_solver': dict(second, time_s=round(second['time_s'], 1), solver='cvc5 (python wheel)',
+                              rule=f'every {__import__("bearverif.core", fromlist=["x"]).SECOND_EVERY}th z3 unsat re-decided on the exported SMT-LIB text; '
+                                   'cvc5 sat = harness error; unknown/error prove nothing'),
         'skipped_unsupported_by_beartype': len(skipped),
         'skipped_examples': skipped[:5],
         'inconclusive': len(inconclusive),
